@@ -232,7 +232,96 @@ def flowOkAt (md : Module) (hm : HMap) (a : Nat) : Bool :=
       else true
   | _, _ => true
 
-def flowOk (md : Module) (hm : HMap) : Bool := (List.range md.code.size).all (flowOkAt md hm)
+/-! ### certificate re-check, second part: the frame opcodes, frame-relative addressing, function regions, handlers
+
+`flowOkAt` re-checks the heights along the edges of the effect table.  `frameOkAt` re-checks what `absStep` decided for the
+opcodes outside the table (MARK, CALL, SLIDE, RET, CLEAR_STACK, PUSH_PARAM, MK_INIT_ARRAY), the frame-relative reach of the
+addressing opcodes, and that every edge stays inside one function (so that the parameter count of the running function is the
+same at both ends).  It is stated on the finished height map only (no iteration), and Props/C07 rests on it. -/
+
+/-- `a` and `t` lie in the same function region (same `FUNC_DEF` before them, or both in the top region) -/
+def sameFn (starts : List Nat) (a t : Nat) : Bool := regionStart starts a == regionStart starts t
+
+/-- parameter count the certificate uses at address `a` -/
+def npAt (md : Module) (starts : List Nat) (a : Nat) : Nat := (paramsAt md starts a).getD 0
+
+/-- `a` is in the top region (global initialisation and entry stub) -/
+def topAt (starts : List Nat) (a : Nat) : Bool := (regionStart starts a).isNone
+
+/-- the successor `t` of `a` was reached with height `k` and lies in the same function -/
+def hAt (starts : List Nat) (hm : HMap) (a t k : Nat) : Bool :=
+  match hm[t]? with
+  | some (some s') => s'.h == k && sameFn starts a t
+  | _ => false
+
+/-- frame-relative reach `sp - d` at height `h` in a function of `np` parameters: at or below the top, above the caller's data -/
+def reachB (top : Bool) (np h : Nat) (d : Int) : Bool := decide (0 ≤ d) && (top || decide (d < (h : Int) + (np : Int)))
+
+/-- is the CALL at `a` the one a MARK returns behind? -/
+def markedCall (md : Module) (a : Nat) : Bool :=
+  (List.range md.code.size).any fun m => match md.code[m]? with | some mi => mi.op == .MARK && mi.w0 == a + 1 | none => false
+
+/-- the constant extents recorded for a MK_INIT_ARRAY at abstract state `s`: `some ds` when the top `dims` slots are known
+constants (top of stack first) -/
+def initExts (s : AbsSt) (dims : Nat) : Option (List Int) :=
+  let ds := s.consts.take dims
+  if ds.length == dims && ds.all (·.isSome) then some (ds.map (·.getD 0)) else none
+
+/-- number of elements of an array literal with these extents, as the VM computes it (`unsigned` extents) -/
+def extsCount (ds : List Int) : Nat := Idx.prod (ds.map fun e => (e % 4294967296).toNat)
+
+def frameOkAt (md : Module) (starts : List Nat) (hm : HMap) (a : Nat) : Bool :=
+  match md.code[a]?, hm[a]? with
+  | some i, some (some s) =>
+    let np := npAt md starts a
+    let top := topAt starts a
+    match i.op with
+    | .MARK => hAt starts hm a i.w0 (s.h + 1) && hAt starts hm a (a + 1) (s.h + 5)
+    | .CALL => if markedCall md a then decide (1 ≤ s.h) else s.h == 1
+    | .SLIDE =>
+      if i.w0 == 0 then hAt starts hm a (a + 1) s.h
+      else if i.w0 + i.w1 ≤ s.h then hAt starts hm a (a + 1) (s.h - i.w0)
+      else s.h == i.w0 + 1 && i.w1 == np + 1 && (md.code[a + 1]?.map (·.op)) == some .CALL && hAt starts hm a (a + 1) 1
+    | .RET => s.h == 1
+    | .CLEAR_STACK => i.w0 == np && hAt starts hm a (a + 1) 0
+    | .PUSH_PARAM => hAt starts hm a (a + 1) (s.h + md.params.length)
+    | .MK_INIT_ARRAY =>
+      match initExts s i.w0 with
+      | some ds => decide (extsCount ds < 4294967296) && decide (i.w0 + extsCount ds ≤ s.h) && hAt starts hm a (a + 1) (s.h - (i.w0 + extsCount ds) + 1)
+      | none => false
+    | .JUMP => sameFn starts a ((a : Int) + 1 + i32 i.w0).toNat
+    | .JUMPZ => sameFn starts a ((a : Int) + 1 + i32 i.w0).toNat && sameFn starts a (a + 1)
+    | .ID_LOCAL | .ID_DIM_LOCAL | .ID_DIM_SLICE | .OP_DUP_INT | .OP_INC_INT | .OP_DEC_INT | .ARRAY_APPEND =>
+      reachB top np s.h (i32 i.w0 - i32 i.w1) && sameFn starts a (a + 1)
+    | .VEC_DEREF | .VECREF_VEC_DEREF => reachB top np s.h (i32 i.w0) && sameFn starts a (a + 1)
+    | .DUP => reachB top np s.h ((i.w0 : Int) - 1) && sameFn starts a (a + 1)
+    | .REWRITE => reachB top np s.h (i.w0 : Int) && sameFn starts a (a + 1)
+    | _ => (simpleEffect i).isNone || sameFn starts a (a + 1)
+  | _, _ => true
+
+/-- an exception handler entry: `CLEAR_STACK` / `RETHROW` / `UNHANDLED_EXCEPTION`, possibly behind a `LABEL` -/
+def handlerEntry (md : Module) (a : Nat) : Bool :=
+  (match md.code[a]? with | some i => isHandlerOp i.op | none => false) ||
+  ((match md.code[a]? with | some i => i.op == .LABEL | none => false) &&
+   (match md.code[a + 1]? with | some i => isHandlerOp i.op | none => false))
+
+/-- every handler of the exception table is a handler entry that the height map reached -/
+def handlersOk (md : Module) (hm : HMap) : Bool :=
+  (md.exctab.toList.take md.excCount).all fun e =>
+    handlerEntry md e.handler && (match hm[e.handler]? with | some (some _) => true | _ => false)
+
+/-- every function entry (`FUNC_DEF`) was reached with the empty frame: height 0 above its parameters -/
+def startsOk (starts : List Nat) (hm : HMap) : Bool :=
+  starts.all fun a => match hm[a]? with | some (some s) => s.h == 0 | _ => false
+
+/-- address 0 (where the first `nev_execute` starts, with an empty stack) was reached with nothing on the stack -/
+def entryOk (md : Module) (starts : List Nat) (hm : HMap) : Bool :=
+  match hm[0]? with | some (some s) => npAt md starts 0 + s.h == 0 | _ => false
+
+def flowOk (md : Module) (hm : HMap) : Bool :=
+  let starts := funcStarts md
+  (List.range md.code.size).all (fun a => flowOkAt md hm a && frameOkAt md starts hm a) && handlersOk md hm && startsOk starts hm &&
+  entryOk md starts hm
 
 /-- the verifier proper: summary and the height map (one abstract state per reached address) -/
 def verifyCore (md : Module) : Except String (Summary × HMap) := do
@@ -275,7 +364,7 @@ def verifyH (md : Module) : Except String (Summary × HMap) :=
   | .error e => .error e
   | .ok (sm, hm) =>
     if flowOk md hm then .ok (sm, hm)
-    else .error "certificate re-check failed: a recorded height is not pops/pushes-consistent with its successor"
+    else .error "certificate re-check failed: a recorded height is not consistent with its successor, a frame opcode / frame-relative operand / handler entry does not re-check, or an edge leaves its function"
 
 def verify (md : Module) : Except String Summary := (verifyH md).map (·.1)
 
